@@ -39,7 +39,26 @@ def _worker(job):
     spec = C.REGISTRY.get(target) or C.LEMMAS.get(target.split('::')[-1])
     out['trusted'] = spec.trusted
     out['kind'] = spec.kind
-    if not spec.trusted:
+    if spec.kind == 'custom':
+      import hashlib
+      from pyvc.extract import parse_file
+      out['sha'] = hashlib.sha256(parse_file(spec.file)[0].encode()).hexdigest()
+      res = spec.check()
+      for kind, ok, detail in res:
+        d = dict(key=f'{target}::{kind}', stem=f'{target}::{kind}', kind=kind, status='unsat' if ok else 'sat',
+                 solver='syntactic', time=0.0, detail=detail, solvers=['syntactic'])
+        if not ok:
+          d['output'] = 'structural obligation failed: ' + detail
+          if spec.replay is not None:
+            try:
+              fails, observed = spec.replay()
+              d['ce'] = ('confirmed', dict(function=target, inputs={'schedule': 'forced (see observed)'}, violated=kind, observed=observed, source='structural obligation; demonstrated natively on the real code')) if fails else ('spurious', observed)
+            except Exception:
+              d['ce'] = ('unreadable', traceback.format_exc()[-400:])
+        out['obligations'].append(d)
+      out['paths'] = 1
+      out['canary_ok'] = True
+    elif not spec.trusted:
       budget = 20.0 if tier == 'quick' else 120.0
       r = verify.verify_function(spec, budget)
       if tier == 'thorough' and r.outside is None and r.crash is None:
@@ -221,7 +240,7 @@ def run_property(pid, cfg, tier, seed, jobs, update_ledger, t0):
         if is_known(tgt, f['violated'], f['inputs']):
           kf_lines.append(f"KNOWN-FINDING: property={pid} {is_known(tgt, f['violated'], f['inputs'])['what']}")
           continue
-        path = write_replay(o['key'] + 'ce', dict(property=pid, kind='failing-input', source='solver counter-model replayed on the real code',
+        path = write_replay(o['key'] + 'ce', dict(property=pid, kind='failing-input', source=f.get('source', 'solver counter-model replayed on the real code'),
                                                  function=tgt, obligation=o['key'], inputs=f['inputs'], observed=f['observed'], modules=cfg['modules']))
         violations.append((stem, path, ''))
         continue
